@@ -225,6 +225,9 @@ class FakeUdp(object):
     def settimeout(self, t):
         self.timeout = t
 
+    def bind(self, addr):
+        pass
+
     def sendto(self, data, addr):
         return self.line.written(data)
 
@@ -288,8 +291,8 @@ class Patched(object):
         csync.socket.socket = self.saved_socket
 
 
-KINDS = ('tcp', 'rtu-over-tcp', 'serial-rtu', 'serial-ascii', 'serial-binary', 'udp')
-FRAMING = {'tcp': 'tcp', 'rtu-over-tcp': 'rtu', 'serial-rtu': 'rtu', 'serial-ascii': 'ascii', 'serial-binary': 'binary', 'udp': 'tcp'}
+KINDS = ('tcp', 'rtu-over-tcp', 'serial-rtu', 'serial-ascii', 'serial-binary', 'udp')      # 'tls' (C14 only): TLS framing on the fake stream socket
+FRAMING = {'tcp': 'tcp', 'rtu-over-tcp': 'rtu', 'serial-rtu': 'rtu', 'serial-ascii': 'ascii', 'serial-binary': 'binary', 'udp': 'tcp', 'tls': 'tls'}
 
 
 _NEIGHBOUR_CLASSES = []
@@ -331,6 +334,19 @@ def make_client(kind, line, neighbour=True, **kw):
     elif kind.startswith('serial-'):
         c = csync.ModbusSerialClient(method=kind.split('-')[1], port='fake', baudrate=19200, **kw)
         c.socket = FakeSerial(line, kw['timeout'])
+    elif kind == 'tls':
+        c = csync.ModbusTlsClient('peer', **kw)            # the record layer is not modelled: PDUs go over the fake stream socket
+        c.socket = FakeSocket(line)
+
+        class _Ctx(object):                                # what connect() wraps a new socket with when it reconnects
+            def wrap_socket(self, sock, **k):
+                line.reconnects += 1
+                line.rx = []
+                line.conn += 1
+                s2 = FakeSocket(line)
+                s2.connect = lambda addr: None
+                return s2
+        c.sslctx = _Ctx()
     elif kind == 'udp':
         c = csync.ModbusUdpClient('127.0.0.1', **kw)
         c.socket = FakeUdp(line, kw['timeout'])
